@@ -476,6 +476,27 @@ func checkC16(c CaseC16, info *Info) *Failure {
 		other.JsonWriterRaw(&chunkWriter{})
 		other.JsonIndentWriterRaw(&chunkWriter{}, "", " ", true)
 	}
+	// the encoders are functions of the Map's current value: after the caller changes the SAME Map object in place,
+	// the encodings are those of a freshly built equal Map (nothing remembered per receiver)
+	{
+		changeInPlace(m)
+		fresh := copyMap(m)
+		for name, enc := range map[string]func(mxj.Map) ([]byte, error){
+			"Xml":        func(v mxj.Map) ([]byte, error) { return v.Xml() },
+			"XmlIndent":  func(v mxj.Map) ([]byte, error) { return v.XmlIndent(c.Prefix, c.Ind) },
+			"Json":       func(v mxj.Map) ([]byte, error) { return v.Json() },
+			"JsonIndent": func(v mxj.Map) ([]byte, error) { return v.JsonIndent(c.Prefix, c.Ind) },
+		} {
+			a, ea := enc(mxj.Map(m))
+			b, eb := enc(mxj.Map(fresh))
+			if (ea == nil) != (eb == nil) || (ea == nil && !bytes.Equal(a, b)) {
+				return failf("stale-after-in-place-change", "%s after the Map was changed in place gives %q (%v), a freshly built equal Map gives %q (%v)", name, a, ea, b, eb)
+			}
+		}
+		if mxj.Map(m).StringIndent() != mxj.Map(fresh).StringIndent() {
+			return failf("stale-after-in-place-change", "StringIndent after the Map was changed in place differs from that of a freshly built equal Map")
+		}
+	}
 	if f := keep.verify(); f != nil {
 		return f
 	}
@@ -488,3 +509,42 @@ func checkC16(c CaseC16, info *Info) *Failure {
 }
 
 func TestC16(t *testing.T) { runProp(t, "C16", genC16, checkC16) }
+
+// changeInPlace modifies the Map object itself: first scalar leaf (sorted walk) replaced, one key added at the root
+// and in the first nested map, the first list shortened by one.
+func changeInPlace(m map[string]interface{}) {
+	m["zzadded"] = "1"
+	leafDone, mapDone, listDone := false, false, false
+	var walk func(v interface{})
+	walk = func(v interface{}) {
+		switch x := v.(type) {
+		case map[string]interface{}:
+			for _, k := range sortedKeys(x) {
+				switch vv := x[k].(type) {
+				case map[string]interface{}:
+					if !mapDone {
+						mapDone = true
+						vv["zzinner"] = "2"
+					}
+					walk(vv)
+				case []interface{}:
+					if !listDone && len(vv) > 1 {
+						listDone = true
+						x[k] = vv[:len(vv)-1]
+					}
+					walk(x[k])
+				case string:
+					if !leafDone && !specialKey(k) {
+						leafDone = true
+						x[k] = vv + "CHANGED"
+					}
+				}
+			}
+		case []interface{}:
+			for _, vv := range x {
+				walk(vv)
+			}
+		}
+	}
+	walk(m)
+}
